@@ -90,3 +90,32 @@ _b("C08", "bounded stand-in: count conservation equations on enumerated treebank
 _b("C09", "bounded stand-in: grammar files decoded by the tool's reader / independent decoders; CLI grammar input",
    "Grammar files decode to the grammar in memory.",
    "bounded exploration", "5 C09")
+
+# ---- properties with a deductive part (overrides of the entries above) ----
+def _pb(pid, technique, expl, text):
+    PROPS[pid].update({"level": "other", "technique": technique, "explanation": expl, "level_text": text,
+                       "assumptions": [COMMON_P, COMMON_B]})
+
+
+_pb("C02", "contract-based deductive verification (pyvc) of export_tabs; bounded stand-in (independent decoders) for the writers",
+    "export_tabs proved against the documented tab-stop table for every length (counter-models are replayed on the real "
+    "function); everything else of the property is bounded only.",
+    "proof for export_tabs, bounded stand-in for the writers; 'other'")
+_pb("C17", "contract-based deductive verification (pyvc: loop invariant, raises clauses, ssum lemmas) of parse_split_specification; bounded stand-in for the CLI split branch",
+    "parse_split_specification is proved for every specification string and every size: sizes follow the specification "
+    "(absolute exact, percentages floor(N*size/100) in integers, remainder to rest / first largest), are non-negative, sum to "
+    "size, and ValueError is raised exactly for malformed or over-demanding specifications (str.split/isdigit/int abstracted, "
+    "see trusted_base). The split branch of transform.run is bounded only.",
+    "proof for the size computation (all obligations discharged, unbounded), bounded stand-in for file splitting; 'other'")
+_pb("C18", "frame obligations decided by static analysis of the real AST (one per function: no module-level, class-level or function-attribute state, no use of Tree.id/id()/hash(), no caching decorator) + bounded concatenation/history/hash-seed experiments",
+    "Every function of the package has a frame obligation: it touches no state that outlives the call except the three "
+    "documented places (Tree.newid, the terminal-file cache of insert_/substitute_terminals). A function that acquires a cache "
+    "or counter fails its obligation (reported without a failing input). Observable history independence, concatenation and "
+    "hash-seed determinism are bounded only.",
+    "frame obligations for all 130 functions (syntactic, conservative) + bounded experiments; 'other'")
+_pb("C19", "contract-based deductive verification (pyvc, read-only heap with ghost depth/anc/pos) of right_sibling, left_sibling, dominance, lca + lemmas (siblings inverse, lca lowest); bounded stand-in for children/terminals/preorder/postorder/levels/numbering",
+    "right_sibling/left_sibling (neighbours in the ordered child list, mutually inverse), dominance (parent chain to the root, "
+    "with termination) and lca (none iff one dominates the other; otherwise the lowest common dominator) are proved for every "
+    "well-formed tree of any size, with the contracts of children/terminals assumed (trusted_base). children, terminals, "
+    "preorder, postorder, levels and the export numbering are bounded only.",
+    "proof for siblings/dominance/lca, bounded stand-in for the rest; 'other'")
